@@ -52,6 +52,27 @@ Definition veqb (v w : val) : bool :=
   | _, _ => false
   end.
 
+(* IDENTITY of values (Leibniz equality, decidable): what HashedValue.__eq__ compares - the id of the wrapped object -
+   on the values a variable can be bound to (domain objects).  Lemmas: EvalPure_Facts.v *)
+Definition atom_eqb (a b : atom) : bool :=
+  match a, b with
+  | AInt x, AInt y => Z.eqb x y
+  | ABool x, ABool y => Bool.eqb x y
+  | ANone, ANone => true
+  | AStr s, AStr t => String.eqb s t
+  | AObj o, AObj p => Nat.eqb o p
+  | ATup l, ATup m => zs_eqb l m
+  | _, _ => false
+  end.
+Fixpoint atoms_eqb (l m : list atom) : bool :=
+  match l, m with
+  | [], [] => true
+  | a :: l', b :: m' => atom_eqb a b && atoms_eqb l' m'
+  | _, _ => false
+  end.
+Definition val_eqb (v w : val) : bool :=
+  match v, w with VA a, VA b => atom_eqb a b | VTup l, VTup m => atoms_eqb l m | _, _ => false end.
+
 (* a TOTAL comparison used for <, <=, >, >= : numeric on numbers (the only operands the generators
    produce for order comparisons).  On other operands CPython raises TypeError or uses orders this
    model does not describe; the definition is total so that the models are functions, and the
